@@ -83,7 +83,7 @@ structure Obl (qn : QName) (Pl : Nat → PState → Action → Prop) : Prop wher
   ren : ∀ l t nx path tag, pathStr qn t l = .ok path → Pl l ⟨t, nx⟩ (.renameNode path tag)
   txt : ∀ l t nx path v, pathStr qn t l = .ok path → Pl l ⟨t, nx⟩ (.updateTextIn path v)
   tail : ∀ l t nx path v, pathStr qn t l = .ok path → Pl l ⟨t, nx⟩ (.updateTextAfter path v)
-  attr : ∀ l p path a, IsAttrOn path a → Pl l p a
+  attr : ∀ l t nx path a, pathStr qn t l = .ok path → IsAttrOn path a → Pl l ⟨t, nx⟩ a
   ins : ∀ l p tp tag pos, Pl l p (.insertNode tp tag pos)
   insc : ∀ l p tp pos v, Pl l p (.insertComment tp pos v)
   move : ∀ l p p1 p2 pos, Pl l p (.moveNode p1 p2 pos)
@@ -181,8 +181,9 @@ theorem updateText_g (l : Nat) (x : Payload) (s s' : DState) (hs : SOK s)
         · exact GS.refl qn ign _ _ hs1
       exact c1.trans c2
 
-theorem updateAttrStep_g (l0 l : Nat) (x : Payload) (s s' : DState) (hs : SOK s)
+theorem updateAttrStep_g (l0 l : Nat) (hl0 : l = l0) (x : Payload) (s s' : DState) (hs : SOK s)
     (hx : (keys x.attrs).Nodup) (h : updateAttrStep qn ign l x s = .ok s') : GS qn ign (Pl l0) s s' := by
+  subst hl0
   obtain ⟨acts, st⟩ := updateAttrStep_steps qn ign l x s s' hs hx h
   refine ⟨acts, st, ?_⟩
   unfold updateAttrStep at h
@@ -200,7 +201,22 @@ theorem updateAttrStep_g (l0 l : Nat) (x : Payload) (s s' : DState) (hs : SOK s)
       subst h
       have e1 : acts = acts' := acts_of_out acts acts' s.out (by rw [← st.out]; exact hph.out_eq)
       subst e1
-      exact along_of_forall qn _ _ acts (fun a ha q => ob.attr l0 q path a (hph.on a ha).1)
+      -- the state in front of each action: node `l` with the attributes of the run so far
+      intro pre a post hsplit q hq
+      have hrun := hph.run
+      rw [hsplit, attrRun_append] at hrun
+      cases hc : attrRun ln.payload.attrs pre with
+      | none => rw [hc] at hrun; cases hrun
+      | some cur =>
+        have hon : ∀ b ∈ pre, IsAttrOn path b := fun b hb => (hph.on b (by rw [hsplit]; simp [hb])).1
+        have hrep := attr_replay qn s.left s.next l path ln hs.nodup hln hpath pre hon cur hc
+        rw [hrep] at hq
+        injection hq with hq
+        subst hq
+        apply ob.attr l _ _ path a ?_ (hph.on a (by rw [hsplit]; simp)).1
+        unfold pathStr at hpath ⊢
+        rw [getpath_modify qn l _ (setAttrs_keeps cur) s.left l]
+        exact hpath
 
 theorem insertStep_g (l0 : Nat) (R x : Tree) (lt : Option Nat) (s s' : DState) (l : Nat)
     (hs : SOK s) (h : insertStep qn R x lt s = .ok (l, s')) : GS qn ign (Pl l0) s s' := by
@@ -309,7 +325,7 @@ theorem visit_g (cfg : Cfg) (hign : ign = cfg.ignored) (R x : Tree) (s s' : DSta
       · next s2 hattrs =>
         have c1 := insertStep_g qn cfg.ignored Pl ob l R x _ s s1 l hs hins
         obtain ⟨hms1, hl⟩ := insertStep_ms qn R x _ s s1 l hins
-        have c2 := updateAttrStep_g qn cfg.ignored Pl ob l l x.payload s1 s2 (gs_ok c1) hx hattrs
+        have c2 := updateAttrStep_g qn cfg.ignored Pl ob l l rfl x.payload s1 s2 (gs_ok c1) hx hattrs
         have hms2 := updateAttrStep_ms qn cfg.ignored l x.payload s1 s2 hattrs
         have hl2 : r2lGet s2.ms x.id = some l := by
           rw [hms2, hms1]; simp [r2lGet]
@@ -332,7 +348,7 @@ theorem visit_g (cfg : Cfg) (hign : ign = cfg.ignored) (R x : Tree) (s s' : DSta
           have hms1 := moveStep_ms qn R x l _ s s1 hs.nodup hmove
           have c2 := renameStep_g qn cfg.ignored Pl ob l l rfl x.payload s1 s2 (gs_ok c1) hren
           have hms2 := renameStep_ms qn l x.payload s1 s2 (gs_ok c1).nodup hren
-          have c3 := updateAttrStep_g qn cfg.ignored Pl ob l l x.payload s2 s3 (gs_ok c2) hx hattrs
+          have c3 := updateAttrStep_g qn cfg.ignored Pl ob l l rfl x.payload s2 s3 (gs_ok c2) hx hattrs
           have hms3 := updateAttrStep_ms qn cfg.ignored l x.payload s2 s3 hattrs
           have hl3 : r2lGet s3.ms x.id = some l := by rw [hms3, hms2, hms1]; exact hun
           obtain ⟨c4, hms4⟩ := visitTail_g qn cfg.ignored Pl ob R x l s3 s' (gs_ok c3) hl3 h
